@@ -1342,7 +1342,21 @@ pub fn run_c25(ctx: &Ctx) -> i32 {
                 _ => {}
             }
         }
-        let step_b = if rng.chance(1, 4) {
+        // Sometimes B keeps every conflict of A untouched and differs only at
+        // another path (same number of terms, same labels).
+        let same_conflicts = step_a.terms.len() > 1 && rng.chance(1, 2);
+        let step_b = if same_conflicts {
+            let entry = gen_entry(rng, &pool);
+            let extra_path = *rng.pick(&["zz/new", "f", "u"]);
+            let mut terms = step_a.terms.clone();
+            for t in &mut terms {
+                tree_insert(t, extra_path, entry.clone());
+            }
+            if settings.eol != "none" {
+                terms.iter_mut().for_each(normalize_model);
+            }
+            Step { terms }
+        } else if rng.chance(1, 4) {
             let mut terms = gen_conflict_terms(rng, &b_base, &pool, 3);
             remove_clashes(&mut terms);
             if settings.eol != "none" {
@@ -1465,8 +1479,29 @@ pub fn run_c25(ctx: &Ctx) -> i32 {
                 }
                 // 3. local modifications of tracked files the update does not touch
                 let mut modified: Vec<String> = vec![];
+                // a hand resolution written over a conflict file whose conflict is
+                // identical in A and B (same terms, same labels): not touched by the update
+                let same_shape = tree_a.tree_ids().as_slice().len() == tree_b.tree_ids().as_slice().len()
+                    && tree_a.labels() == tree_b.labels();
+                if same_conflicts && same_shape {
+                    for (q, leaf) in &leaves_a {
+                        let is_file_conflict = matches!(leaf, Leaf::Conflict(vals)
+                            if vals.iter().all(|v| matches!(v, Val::File { .. } | Val::Absent)));
+                        if is_file_conflict
+                            && leaves_b.get(q) == Some(leaf)
+                            && !removed_tracked.contains(q)
+                            && !planted.iter().any(|p| is_dir_prefix(&p.path, q) || p.path == *q)
+                            && root.join(q).is_file()
+                        {
+                            std::fs::write(root.join(q), b"resolved by hand\n").unwrap();
+                            modified.push(q.clone());
+                            ctx.count("planted_hand_resolution_of_unchanged_conflict");
+                            break;
+                        }
+                    }
+                }
                 for (q, leaf) in &leaves_a {
-                    if modified.len() >= n_modify {
+                    if modified.len() >= n_modify.max(1) {
                         break;
                     }
                     let untouched = matches!(leaf, Leaf::File { .. })
